@@ -182,6 +182,27 @@ def _conds_unchecked(test) -> list:
     return conds
 
 
+# which derivatives each built-in surface CODES (everything else is inherited from Potential's finite differences): a newly
+# coded gradient / Hessian is a new claim of exactness that no theorem covers yet
+CODED = {"potentials/test_functions.py": {"Camelback": ["function", "gradient", "hessian"], "Schwefel": ["function"],
+                                          "Quadratic": ["function"]},
+         "potentials/atomic.py": {"LennardJones": ["function", "function_gradient", "gradient"]}}
+DERIVATIVE_METHODS = {"function", "gradient", "hessian", "function_gradient"}
+
+
+def coded_methods(status: dict) -> None:
+    bad = []
+    for rel, classes in CODED.items():
+        tree = parse(rel)
+        for cname, want in classes.items():
+            got = sorted(n.name for n in _cls(tree, cname).body if isinstance(n, ast.FunctionDef) and n.name in DERIVATIVE_METHODS)
+            if got != sorted(want):
+                bad.append(f"{cname} codes {got}, the model knows {sorted(want)}")
+    if bad:
+        raise Unavailable("; ".join(bad))
+    status["Surfaces.coded_methods"] = "as modelled: " + "; ".join(f"{c}: {', '.join(m)}" for cl in CODED.values() for c, m in cl.items())
+
+
 GROUPS = (("camel", lambda d, s: camelback(d, s)), ("lj", lambda d, s: lennard_jones(d, s)),
           ("gupta", lambda d, s: gupta(d, s)), ("fd", lambda d, s: finite_differences(d, s)),
           ("classifiers", lambda d, s: classifiers(d, s)))
@@ -213,6 +234,10 @@ def regenerate() -> tuple[dict, dict]:
         except Unavailable as e:
             status[f"Surfaces.{name}"] = f"unavailable ({e}); correspondence is the only tie"
             exprs[name] = None
+    try:
+        coded_methods(status)
+    except Unavailable as e:
+        status["Surfaces.coded_methods"] = f"unavailable ({e}); the predicates are the only tie"
     missing = [k for k in fallback if k not in defs]
     for k in missing:
         defs[k] = (fallback[k][0], "-- kernel unavailable: last verified transcription\n  " + fallback[k][1])
